@@ -482,6 +482,14 @@ func coldEpisode(ep *Episode, plan *simsched.Plan, fix, sites string, race bool,
 				if c.K == "dnewrand" {
 					continue
 				}
+				key := fmt.Sprintf("%d|%s|%d|%d", ep.FixSeed, c.K, c.A, c.B)
+				aloneMu.Lock()
+				memo, ok := aloneMemo[key]
+				aloneMu.Unlock()
+				if ok {
+					alone[t][i] = memo
+					continue
+				}
 				one, _ := json.Marshal(&Episode{FixSeed: ep.FixSeed, EntSeed: ep.EntSeed, Tasks: [][]Call{{c}}})
 				o, code, err := runProc(timeout, nil, os.Getenv("CONSIM_BIN_PLAIN"), "cold-ref", string(one), fix, sites)
 				var oo coldOut
@@ -489,6 +497,9 @@ func coldEpisode(ep *Episode, plan *simsched.Plan, fix, sites string, race bool,
 					return nil, false, "", fmt.Errorf("single-call reference process failed: code=%d err=%v", code, err)
 				}
 				alone[t][i] = oo.Results[0][0]
+				aloneMu.Lock()
+				aloneMemo[key] = alone[t][i]
+				aloneMu.Unlock()
 			}
 		}
 		refOut.Alone = alone
